@@ -233,5 +233,5 @@ Inv_C02_Forms ==
     Over =>
     /\ (EndAntiConf(Strict, Wn) = {}) <=> (\A r \in Resolutions : AntiHolds(r))
     /\ (\A r \in Resolutions : AffHolds(r)) => EndAffBad(Strict, Wn) = {}
-    /\ okAdm => EndSpreadBad(Strict, Wn, LAMBDA q, s : UL(s)) = {}
+    /\ okAdm => EndSpreadBad(Strict, Wn, LAMBDA q, s : {}) = {}       \* exactly as Topology_Trace uses it (no logged universe)
 =============================================================================
